@@ -18,7 +18,12 @@ def gen(rnd, tier):
         ops = [{"op": "resize", "w": w, "h": h}] + ([{"op": "enteralt"}] if alt else []) + \
               [{"op": "write", "s": R.join_view(a)}, {"op": "flush"}, {"op": "write", "s": R.join_view(b)}, {"op": "flush"},
                {"op": "write", "s": R.join_view(b)}, {"op": "flush"}, {"op": "write", "s": R.join_view(b)}, {"op": "write", "s": R.join_view(b)}, {"op": "flush"}]
-        if rnd.random() < 0.4:
+        if alt and rnd.random() < 0.35:
+            # a line printed just before the alt screen is entered (same frame interval): it is never shown there and
+            # must not make later frames more expensive
+            k = [i for i, o in enumerate(ops) if o["op"] == "enteralt"][0]
+            ops = ops[:k] + [{"op": "print", "s": [76, 48 + rnd.randint(0, 9)]}] + ops[k:]
+        elif rnd.random() < 0.4:
             # unmanaged output (Println) arriving while a frame is pending: still nothing before the tick
             k = [i for i, o in enumerate(ops) if o["op"] == "write"][rnd.choice([0, 1])]
             ops = ops[:k + 1] + [{"op": "print", "s": [76, 48 + rnd.randint(0, 9)]}] + ops[k + 1:]
@@ -26,7 +31,53 @@ def gen(rnd, tier):
     return cases
 
 
+def framerate_family(res, tier):
+    """whole Programs: a model that updates far faster than the frame rate is rendered at most once per frame interval -
+    from the start, and again after the renderer has been stopped and restarted (Exec, ReleaseTerminal/RestoreTerminal)"""
+    from .. import program as P
+    okb, out = C.build_harness()
+    if not okb:
+        raise C.Fail("harness build failed:\n" + out[-2000:])
+    scs, metas = [], []
+    for fps in (5, 20):
+        for variant in ("plain", "after-exec", "after-release"):
+            script = [P.W("started"), P.W("idle")]
+            if variant == "after-exec":
+                script += [P.DO("send", msg=P.B("exec")), P.DO("sleep", us=120000), P.W("idle")]
+            elif variant == "after-release":
+                script += [P.DO("release-terminal"), P.DO("sleep", us=60000), P.DO("restore-terminal"), P.DO("sleep", us=60000), P.W("idle")]
+            script += [P.DO("send", msg=P.U(7000)), P.DO("start-senders"), P.DO("wait-senders"), P.DO("send", msg=P.U(7001)), P.W("idle"), P.DO("quit"), P.W("returned")]
+            # one sender keeps the model changing for about 0.6 s
+            s = P.scenario(len(scs), script, opts={"fps": fps}, senders=[[P.U(100 + k) for k in range(300)]], update_default={"sleep_us": 2000},
+                           watchdog_ms=8000, writes=True, parallel_ok=False)
+            scs.append(s)
+            metas.append({"fps": fps, "variant": variant})
+    results, _ = P.run_scenarios("C19_rate", scs, timeout=600)
+    bad = []
+    for m, r in zip(metas, results):
+        if P.machinery_problem(r) or not r["run_returned"]:
+            bad.append((m, "scenario did not complete"))
+            continue
+        ev = r["events"]
+        t_a = next((e["t"] for e in ev if e["ev"] == "UpdateBegin" and e.get("key") == "u:7000"), None)
+        t_b = next((e["t"] for e in ev if e["ev"] == "UpdateBegin" and e.get("key") == "u:7001"), None)
+        if t_a is None or t_b is None or t_b <= t_a:
+            bad.append((m, "markers missing"))
+            continue
+        n = sum(1 for t, ln in r.get("writes", []) if t_a <= t <= t_b and ln > 8)     # frames (mode sequences are shorter)
+        allowed = (t_b - t_a) / 1e6 * m["fps"] + 3
+        m["frames"], m["window_s"], m["allowed"] = n, round((t_b - t_a) / 1e6, 2), round(allowed, 1)
+        if n > allowed:
+            bad.append((m, "%d frames were written in %.2f s at fps %d (%s): at most %.1f allowed" % (n, (t_b - t_a) / 1e6, m["fps"], m["variant"], allowed)))
+    res.oblige("Spec on real Programs: at most one render per frame interval while the model updates ~500 times/s, before and after a renderer restart (%d programs)" % len(scs),
+               not bad, bad[:2])
+    for m, what in bad[:1]:
+        res.violation("C19:frame-rate:%s" % m["variant"], what, {"scenario_meta": m})
+    res.coverage["framerate_family"] = metas
+
+
 def run(res, tier, seed):
+    framerate_family(res, tier)
     rnd = random.Random(seed * 9001 + 19)
     cases = gen(rnd, tier)
     # frame-rate clamp: real newRenderer vs model, fps in -5..300 and extreme values
@@ -58,8 +109,8 @@ def run(res, tier, seed):
         for k in writes:
             if len(outs[k]) != 0:
                 return ("C19:write-emits", "write()/resize produced output outside a frame tick (%d bytes)" % len(outs[k]))
-        if has_print:
-            return None      # (printed lines are extra output: the cost bound below is about a plain re-render)
+        if has_print and not case.get("alt"):
+            return None      # (inline, printed lines are extra output: the cost bound below is about a plain re-render)
         # cost of the second flush against the Spec bound (computed here from the same closed formula as Spec/Economy.v)
         a, b = case["pair"]
         w, h = case["w0"], case["h0"]
